@@ -65,3 +65,18 @@ Proof.
             inversion E; subst; clear E; unfold cinv, set_thread in *; cbn; destruct Hc4 as [Hc4 Hm4];
             split; [exact Hc4|congruence]).
 Qed.
+
+Lemma pool_init_cinv maxt prog : cinv (pool_init maxt prog) /\ ps_max (pool_init maxt prog) = maxt.
+Proof.
+  unfold pool_init.
+  set (st0 := mkp [dummy_t] [] [] 0 maxt [] [] prog 0 [] false).
+  assert (H0 : cinv st0) by (unfold cinv; cbn; lia).
+  pose proof (caller_next_cinv st0 H0) as [H1 H2].
+  destruct (caller_next st0) as [st1 th]. cbn [fst] in H1, H2. unfold cinv, set_thread in *. cbn. split; [exact H1|exact H2].
+Qed.
+
+Lemma pspurious_cinv st t st' : cinv st -> pspurious st t = Some st' -> cinv st' /\ ps_max st' = ps_max st.
+Proof.
+  intros H E. unfold pspurious in E. destruct (t_blocked (gett st t)); [|discriminate].
+  inversion E; subst. unfold cinv, set_thread in *. cbn. split; [exact H|reflexivity].
+Qed.
